@@ -397,6 +397,9 @@ func (so *Sorts) typeFacts(term string, t types.Type, na string) []string {
 		}
 		if u.Info()&types.IsString != 0 {
 			out = append(out, "(wfStr "+term+")")
+			if na != "" {
+				out = append(out, "(< (s_base "+term+") "+na+")")
+			}
 		}
 	case *types.Slice:
 		out = append(out, "(wfSlice "+term+")")
